@@ -74,7 +74,7 @@ def _classify(case: Dict[str, Any], I: hist.Interp, res: CaseResult) -> None:
     res.cls("async" if case.get("async") else "sync")
     for k in {o["op"] for o in case["ops"]}:
         res.cls("op-" + k)
-    for k in ("failed-ops", "rerun-after-failure", "rerun-after-success"):
+    for k in ("failed-ops", "rerun-after-failure", "rerun-after-success", "cancelled-runs"):
         if I.stats[k]:
             res.cls(k)
     res.note = {"ops": len(case["ops"]), "failed_ops": I.stats["failed-ops"]}
@@ -140,6 +140,14 @@ def make_machine(H: Harness) -> Any:
         def runexec(self, data: Any) -> None:
             k = data.draw(st.integers(0, len(self.I.execs) - 1))
             self.do({"op": "runexec", "e": k, "args": self._args(data)})
+
+        @precondition(lambda self: self.I is not None and self.I.is_async and any(r["runs"] == 0 for r in self.I.execs))
+        @rule(data=st.data())
+        def cancelrun(self, data: Any) -> None:
+            # the first await of an executor is cancelled half-way; what the executor does when awaited again is
+            # judged by the re-run rule (refuse, or run everything from scratch)
+            fresh = [k for k, r in enumerate(self.I.execs) if r["runs"] == 0]
+            self.do({"op": "cancelrun", "e": data.draw(st.sampled_from(fresh)), "args": self._args(data)})
 
         @rule(data=st.data())
         def compose(self, data: Any) -> None:
